@@ -31,6 +31,8 @@ fn main() {
     }
     return;
   }
+  if id == "c18-first" { std::process::exit(c18::first_use_child_main(&args[2..])); }
+  if id == "c18-long" { std::process::exit(c18::long_child_main(&args[2..])); }
   if id == "c09-deep" { std::process::exit(c09::deep_child_main(&args[2..])); }
   if id == "c10-rngfail" { std::process::exit(c10::rngfail_child_main(&args[2..])); }
   if id == "c10-fork" { std::process::exit(c10::fork_child_main(&args[2..])); }
